@@ -20,6 +20,8 @@ func InitGenesis(ctx sdk.Context, k keeper.Keeper, genState types.GenesisState, 
 	// Set all the vestingAccount
 	for _, elem := range genState.VestingAccountTraces {
 		k.Logger(ctx).Debug("set vesting account", "vestingAccount", elem)
+		// traces are looked up under the canonical bech32 string of the address
+		elem.Address = canonicalAddress(elem.Address)
 		k.SetVestingAccountTrace(ctx, elem)
 	}
 
@@ -57,9 +59,22 @@ func InitGenesis(ctx sdk.Context, k keeper.Keeper, genState types.GenesisState, 
 
 	for _, av := range allAccountVestingPools {
 		k.Logger(ctx).Debug("set account vesting pools", "accountVestingPool", av)
-		k.SetAccountVestingPools(ctx, *av)
+		// pools are looked up under the canonical bech32 string of the owner's address
+		accountVestingPools := *av
+		accountVestingPools.Owner = canonicalAddress(av.Owner)
+		k.SetAccountVestingPools(ctx, accountVestingPools)
 	}
 	ak.GetModuleAccount(ctx, types.ModuleName)
+}
+
+// canonicalAddress returns the canonical bech32 string of a valid address
+// (bech32 also accepts the all upper case spelling)
+func canonicalAddress(address string) string {
+	accAddress, err := sdk.AccAddressFromBech32(address)
+	if err != nil {
+		return address
+	}
+	return accAddress.String()
 }
 
 func ValidateAccountsOnGenesis(ctx sdk.Context, k keeper.Keeper, genState types.GenesisState,
